@@ -11,6 +11,7 @@
 //	err:<text>         write text and a newline to stderr
 //	mark:<file>        create file (sentinel that the command ran)
 //	sleep:<ms>         sleep
+//	pgrp               print "pgrp-same" if this process is in its parent's process group, else "pgrp-own"
 //	block              never exit
 //	spawnhold:<ms>     start a child process (this program, sleeping ms) that inherits stdout and
 //	                   stderr and is not waited for: it keeps those descriptors open after this
@@ -95,6 +96,13 @@ func main() {
 			child := exec.Command(os.Args[0], "sleep:"+arg)
 			child.Stdout, child.Stderr = os.Stdout, os.Stderr
 			_ = child.Start()
+		case "pgrp":
+			// whether this process is in the process group of the process that started it
+			if pg, err := syscall.Getpgid(os.Getppid()); err == nil && pg == syscall.Getpgrp() {
+				fmt.Fprintln(os.Stdout, "pgrp-same")
+			} else {
+				fmt.Fprintln(os.Stdout, "pgrp-own")
+			}
 		case "block":
 			for {
 				time.Sleep(time.Hour)
